@@ -56,7 +56,7 @@ META = {
  "C15": {
   "engine": KANI, "design_ref": "DESIGN.md §5 C15, §12.6",
   "technique": "Kani: relational contract eval_flatex_consuming_vars == eval_flatex_cloning == reference reduction, with moved-flag and clone-counter operand type",
-  "level_text": "Bounded: 2 symbolic nodes and the shape x y x (quick) / 3 symbolic nodes and two 4-node shapes (thorough), each node a literal-or-variable with optional unary function, symbolic values; 5- and 36-node expressions only sampled natively: both evaluators agree with an independent reference, no moved-out placeholder reaches an operator, a variable occurring once is not cloned.",
+  "level_text": "Bounded: 2 symbolic nodes and the shape x y x (quick) / plus two concrete 4-node shapes (thorough), each node a literal-or-variable with optional unary function, symbolic values; 5- and 36-node expressions only sampled natively: both evaluators agree with an independent reference, no moved-out placeholder reaches an operator, a variable occurring once is not cloned.",
   "level_note": "Bounded stand-in; eval_vec / eval_iter entry points and larger expressions not covered.",
  },
  "C04": {
